@@ -60,9 +60,17 @@ def user_table(rng, zeros=False):
     return out
 
 
+_TABLES = {}
+
+
 def table_from_desc(t):
-    """descriptor form of a table: tuple of (aa, ((codon, freq), ...))"""
-    return {aa: dict(cf) for aa, cf in t}
+    """descriptor form of a table: tuple of (aa, ((codon, freq), ...)).  Tables are interned by content:
+    as in user code, one dict object serves every specification (and problem) of the process that
+    names the same table."""
+    key = repr(t)
+    if key not in _TABLES:
+        _TABLES[key] = {aa: dict(cf) for aa, cf in t}
+    return _TABLES[key]
 
 
 def table_to_desc(t):
@@ -122,7 +130,9 @@ def other_sequence(seq):
 
 def init_spec(desc, seq, role="constraint"):
     sp = build_spec(desc)
-    if reused(desc, 4):
+    # classes that read something from the problem at initialisation are reused more often
+    stateful = desc[0] in ("AvoidChanges", "EnforceChanges", "HarmonizeRCA", "EnforceTranslation", "UniquifyAllKmers")
+    if reused(desc, 2 if stateful else 4):
         # the same user object is first initialised (and evaluated) on another sequence: nothing of
         # that first use may leak into the problem of interest
         try:
